@@ -7,6 +7,7 @@ from ..worlds import S, World
 
 PID = "C11"
 NAMES = ["a.x", "t"]
+NAMES_OF = {"owner": ["a.x", "t"], "owner-csum": ["c", "top"]}
 
 
 def world():
@@ -17,6 +18,26 @@ def world():
         # non-initial seed states: a generated file the user edited and redo has already noticed (override flagged)
         prefixes=[[["ifchange", ["all"]], ["uwrite", "a.x", "U1\n"], ["ifchange", ["a.x"]]],
                   [["ifchange", ["all"]], ["ureplace", "t", "R\n"], ["redo", ["t"]]]])
+
+
+def world_csum():
+    """the same game on a checksummed target with a dependent: the user's version of `c` is what `top` gets built from,
+    and when the user removes it again the rebuilt `c` must reach `top` (even if it equals the output before the edit)"""
+    return World(
+        "owner-csum", {"src": ["0", "2"]},
+        {"top.do": [S(deps=["c"])], "c.do": [S(kind="csum", deps=["src"], out="file")]},
+        ["top", "c"], ["top", "c"],
+        prefixes=[[["ifchange", ["top"]], ["uwrite", "c", "U1\n"], ["ifchange", ["top"]]],
+                  [["ifchange", ["top"]], ["ureplace", "c", "R\n"], ["ifchange", ["top"]], ["rm", "c"]]])
+
+
+def alphabet_csum(w, h):
+    ops = [["ifchange", ["top"]], ["ifchange", ["c"]], ["redo", ["c"]]]
+    cur = e1prop.cur_values(w, h)
+    ops.append(["edit", "src", "2" if cur["src"] == "0" else "0"])
+    for n in ("c", "top"):
+        ops += [["uwrite", n, "U1\n"], ["ureplace", n, "R\n"], ["rm", n]]
+    return ops
 
 
 def step_check(proj, i, obs):
@@ -37,10 +58,13 @@ def step_check(proj, i, obs):
                             {"before": before[n], "after": after[n]}))
             out.append(e1prop.stat("user-owned-files-checked-across-a-redo-command"))
     # a skipped user-modified generated file produces the warning
+    names = NAMES_OF[proj.w.name]
     reach = set(op[1])
     if "all" in op[1] and "all" in executed(obs["trace"]):
-        reach |= set(NAMES)
-    for n in NAMES:
+        reach |= set(names)
+    if "top" in op[1] and "top" in executed(obs["trace"]) and proj.w.name == "owner-csum":
+        reach.add("c")
+    for n in names:
         if mb.owner.get(n) == "redo-overridden" and n in reach:
             out.append(e1prop.stat("requests-of-user-modified-generated-file"))
             if "you modified it" not in obs["err"]:
@@ -64,13 +88,15 @@ def alphabet(w, h):
 def main(tier):
     w = world()
     return e1prop.run_property(
-        PID, tier, [(w, alphabet, 3 if tier == "quick" else 5, 2 if tier == "quick" else 3)], "rv.props.c11",
+        PID, tier, [(w, alphabet, 3 if tier == "quick" else 5, 2 if tier == "quick" else 3),
+                    (world_csum(), alphabet_csum, 3 if tier == "quick" else 5, 2 if tier == "quick" else 3)], "rv.props.c11",
         rule="BFS over all histories <= d (quick 3, thorough 5) of {redo-ifchange a.x|t|all, redo a.x|t, edit src, and for each of "
              "the names a.x (matched by default.x.do) and t (t.do): user-edit in place (two contents of different size), "
              "user-replace (new inode), user-rm}; an ownership ledger records the last writer of each path; oracle: every "
              "redo command leaves bytes and inode of every user-owned path unchanged, warns when it skips a user-modified "
              "generated file, runs exactly the scripts the reference allows, and gives from-scratch contents after exit 0 "
-             "(in particular it rebuilds after the user removed the file)",
+             "(in particular it rebuilds after the user removed the file). Second world: the same on a checksummed target c "
+             "with a dependent top (names c and top)",
         assumptions=["-j1, REDO_LOG=0", "two names, one default rule, one specific rule"],
         budget_s=900 if tier == "quick" else 6000)
 
@@ -78,7 +104,8 @@ def main(tier):
 def replay(path):
     doc = json.load(open(path))
     bindir = common.build_subject()
-    key, viols, summ = replay_history(world(), doc["history"], step_check, bindir=bindir)
+    key, viols, summ = replay_history(world_csum() if doc.get("world") == "owner-csum" else world(), doc["history"], step_check,
+                                      bindir=bindir)
     common.cleanup_scratch()
     bad = [(i, s, d) for i, s, d in viols if s.get("kind") != "__stat__"]
     for s in summ:
